@@ -551,6 +551,20 @@ impl<'a> Gen<'a> {
             OutKind::TrScript => {
                 self.ctx = MsCtx::Tap;
                 let ik = if self.rng.chance(1, 3) { self.uni.unspendable_xonly() } else { self.key() };
+                if self.rng.chance(1, 8) {
+                    // a deep chain (control blocks of 257+ bytes from depth 7 on) with distinct cheap leaves
+                    let depth = self.rng.range(7, 12) as usize;
+                    let mut keys = vec![];
+                    for _ in 0..3 {
+                        keys.push(self.key());
+                    }
+                    let mut t = format!("and_v(v:pk({}),older({}))", keys[0], depth + 1);
+                    for i in 0..depth {
+                        let leaf = format!("and_v(v:pk({}),older({}))", keys[i % 3], i + 1);
+                        t = if self.rng.chance(1, 2) { format!("{{{},{}}}", leaf, t) } else { format!("{{{},{}}}", t, leaf) };
+                    }
+                    return DescSpec { kind, text: format!("tr({},{})", ik, t), source: "deep-chain" };
+                }
                 let n_leaves = match self.rng.below(10) {
                     0..=3 => 1,
                     4..=6 => 2,
@@ -655,4 +669,12 @@ pub const SHAPES: &[&str] = &[
     "or_d(pk(@K),and_v(v:pk(@K),and_v(v:@OT,@AT)))",
     "thresh(2,pk(@K),s:pk(@K),sln:@A,sln:@A)",
     "thresh(3,pk(@K),s:pk(@K),sln:@O,sln:@A)",
+    "and_v(or_c(pk(@K),and_v(v:@O,v:@H)),pk(@K))",
+    "and_v(v:pk(@K),or_d(pk(@K),and_v(v:@O,@H)))",
+    "and_v(v:pk(@K),or_d(pk(@K),and_v(v:@A,and_v(v:@H,and_v(v:@H,@H)))))",
+    "and_v(v:pk(@K),or_i(pk(@K),and_v(v:@A,@H)))",
+    "and_v(v:pk(@K),and_v(v:@A,@OT))",
+    "and_v(v:pk(@K),and_v(v:@AT,@O))",
+    "or_d(pk(@K),and_v(v:pk(@K),and_v(v:@A,@OT)))",
+    "and_v(v:pk(@K),and_v(v:@H,@H))",
 ];
